@@ -217,6 +217,7 @@ class AbsMachine:
         self.stmt_hook = stmt_hook
         self.isinstance_fn: Callable[[str, str], bool | None] | None = None
         self.enum_classes: set[str] = set()
+        self.cur_chosen: dict[int, Any] = {}
 
     # ---------------------------------------------------------- evaluation
     def ev(self, e: ast.AST, env: Env, chosen: dict[int, Any]) -> Any:
@@ -252,6 +253,8 @@ class AbsMachine:
         if isinstance(e, ast.Call):
             if id(e) in chosen:
                 return chosen[id(e)]
+            if id(e) in self.cur_chosen:
+                return self.cur_chosen[id(e)]
             r = self._container_call(e, env, chosen)
             if r is not NotImplemented:
                 return r
@@ -680,23 +683,37 @@ class AbsMachine:
         what: ast.AST = a
         if node.kind == "with":
             what = ast.Tuple(elts=[i.context_expr for i in a.items], ctx=ast.Load())  # type: ignore[attr-defined]
-        modelled = self._modelled_calls(what, env)
+        # modelled calls are resolved sequentially in evaluation order (inner / leftmost first), so that the model
+        # of an outer call sees the chosen values of the calls nested in its arguments (self.cur_chosen)
+        call_nodes = sorted((n for n in walk_local(what) if isinstance(n, ast.Call)), key=lambda c: (c.end_lineno or 0, c.end_col_offset or 0))
+        states: list[tuple[Env, dict[int, Any], str | None]] = [(dict(env), {}, None)]
+        for call in call_nodes:
+            nxt: list[tuple[Env, dict[int, Any], str | None]] = []
+            for e_, ch_, raised_ in states:
+                if raised_ is not None:
+                    nxt.append((e_, ch_, raised_))
+                    continue
+                self.cur_chosen = ch_
+                outs = self.call_model(call, e_)
+                if outs is None:
+                    nxt.append((e_, ch_, None))
+                    continue
+                for oc in outs:
+                    e3 = dict(e_)
+                    ch3 = dict(ch_)
+                    if oc.event:
+                        e3["trace"] = tuple(e3.get("trace", ())) + (oc.event,)
+                    if isinstance(oc.value, Raise):
+                        e3["#raised"] = oc.value.exc
+                        nxt.append((e3, ch3, oc.value.exc))
+                    else:
+                        ch3[id(call)] = oc.value
+                        nxt.append((e3, ch3, None))
+            states = nxt
+        self.cur_chosen = {}
         results: list[tuple[str, Env]] = []
-        combos = product(*[outs for _, outs in modelled]) if modelled else [()]
-        for combo in combos:
-            e2 = dict(env)
-            chosen: dict[int, Any] = {}
-            raised: str | None = None
-            tr = list(e2.get("trace", ()))
-            for (call, _), oc in zip(modelled, combo):
-                if oc.event:
-                    tr.append(oc.event)
-                if isinstance(oc.value, Raise):
-                    raised = oc.value.exc
-                    e2["#raised"] = raised
-                    break
-                chosen[id(call)] = oc.value
-            e2["trace"] = tuple(tr)
+        for e2, chosen, raised in states:
+            self.cur_chosen = chosen
             if raised is not None:
                 results.append((f"goto:{self._exc_target(node, raised)}", e2))
                 continue
